@@ -54,7 +54,9 @@ def wl_field(ctx, config, scale):
                 # field.h documents magnitudes up to 1 and 31.  Before the repair fa6a6be (finding F4) the implementation formed (-a) + b at
                 # magnitude 33: wrong answers with 32-bit limbs, an abort in VERIFY builds.  31 is now exercised on every configuration.
                 ma = 1; mb = rmag(rng, 1, 31)
-                if rng.random() < 0.4: b = a if rng.random() < 0.5 else (am + p if am + p < 2**256 else am); bm = b % p
+                x = rng.random()
+                if x < 0.3: b = a if rng.random() < 0.5 else (am + p if am + p < 2**256 else am); bm = b % p
+                elif x < 0.6: b = (am ^ (1 << rng.randrange(256))) if rng.random() < 0.6 else (am ^ (rng.getrandbits(26) << (26 * rng.randrange(10)))) & (2**256 - 1); bm = b % p
             elif op == "cmp_var": ma = rmag(rng, 1, 32); mb = rmag(rng, 1, 32)
             else: ma = rmag(rng, 1, 32); mb = rmag(rng, 1, 32)
             flag = rng.randrange(2)
@@ -128,7 +130,10 @@ def wl_scalar(ctx, config, scale):
         elif op == "get_bits_limb32": k2 = rng.randrange(1, 33); lim = rng.randrange(8); k1 = 32 * lim + rng.randrange(0, 33 - k2)
         elif op == "get_bits_var": k2 = rng.randrange(1, 33); k1 = rng.randrange(0, 257 - k2)
         elif op == "set_u64": k1 = pools.u64(rng)
-        elif op == "eq" and rng.random() < 0.4: b = a; bm = am
+        elif op == "eq" and rng.random() < 0.7:
+            # equal, or differing in exactly one bit / one 32-bit limb (an equality loop that skips a limb)
+            k = rng.randrange(3); b = am if k == 0 else (am ^ (1 << rng.randrange(256)) if k == 1 else am ^ (rng.getrandbits(32) << (32 * rng.randrange(8))))
+            a = am; bm = b % n
         elif op in ("mul", "add", "inverse", "inverse_var", "half", "negate") and am and rng.random() < (0.5 if op == "mul" else 0.3):
             t = steer(rng, n)
             if op == "mul": bm = t * pow(am, -1, n) % n; b = bm + n if (bm + n < 2**256 and rng.random() < 0.2) else bm
